@@ -94,6 +94,9 @@ type c11Scn struct {
 	Mode     string `json:"fill"`           // tiny | exact | equal | members
 	FakePMax int    `json:"fake_peer_pmax"` // 0 = no fake peer; 2 or 4 = a peer that gets no checksum header
 	Count    int    `json:"count"`
+	// the keyring is empty when the node is created; the key is installed and made primary at run
+	// time, before any traffic (encryption is decided per packet from the keyring's current content)
+	LateKey bool `json:"key_installed_at_runtime,omitempty"`
 }
 
 func runC11(run *Run, seed int64, sc c11Scn, rng *rand.Rand) (out []*c01Result) {
@@ -106,6 +109,7 @@ func runC11(run *Run, seed int64, sc c11Scn, rng *rand.Rand) (out []*c01Result) 
 	if sc.KeyLen > 0 {
 		key = bytes.Repeat([]byte{0x61}, sc.KeyLen)
 	}
+	var lateRings []*memberlist.Keyring
 	dA := &fillDelegate{mode: "off", handed: map[string]int{}, recv: map[string]int{}, meta: []byte("A")}
 	dB := &fillDelegate{mode: "off", handed: map[string]int{}, recv: map[string]int{}, meta: []byte("B")}
 	mut := func(d *fillDelegate) func(cf *memberlist.Config) {
@@ -119,6 +123,10 @@ func runC11(run *Run, seed int64, sc c11Scn, rng *rand.Rand) (out []*c01Result) 
 			cf.GossipNodes = 3
 			if key != nil {
 				ring, _ := memberlist.NewKeyring(nil, key)
+				if sc.LateKey {
+					ring, _ = memberlist.NewKeyring(nil, nil)
+					lateRings = append(lateRings, ring)
+				}
 				cf.Keyring = ring
 			}
 		}
@@ -134,6 +142,16 @@ func runC11(run *Run, seed int64, sc c11Scn, rng *rand.Rand) (out []*c01Result) 
 	if err != nil {
 		fail("harness/create", "%v", err)
 		return
+	}
+	for _, ring := range lateRings {
+		if err := ring.AddKey(key); err != nil {
+			fail("harness/late-key", "%v", err)
+			return
+		}
+		if err := ring.UseKey(key); err != nil {
+			fail("harness/late-key", "%v", err)
+			return
+		}
 	}
 	// wire monitor: nothing A assembles may exceed the configured packet size
 	var tapMu sync.Mutex
@@ -358,6 +376,7 @@ func TestC11(t *testing.T) {
 			UDP:      udps[rng.Intn(len(udps))],
 			Label:    labels[rng.Intn(3)],
 			KeyLen:   []int{0, 0, 16, 32}[rng.Intn(4)],
+			LateKey:  i%3 == 0,
 			PV:       []int{5, 5, 2, 1}[rng.Intn(4)],
 			Compress: rng.Intn(3) == 0,
 			Mode:     []string{"tiny", "exact", "equal", "members"}[i%4],
@@ -390,7 +409,7 @@ func TestC11(t *testing.T) {
 		if sc.FakePMax > 0 {
 			crc = "crc+nocrc-peers"
 		}
-		run.Cell("pack", sc.Mode, fmt.Sprintf("udp=%d", sc.UDP), fmt.Sprintf("label=%d", len(sc.Label)), fmt.Sprintf("key=%d", sc.KeyLen), fmt.Sprintf("pv=%d", sc.PV), fmt.Sprintf("comp=%v", sc.Compress), crc)
+		run.Cell("pack", sc.Mode, fmt.Sprintf("udp=%d", sc.UDP), fmt.Sprintf("label=%d", len(sc.Label)), fmt.Sprintf("key=%d", sc.KeyLen), fmt.Sprintf("late=%v", sc.LateKey && sc.KeyLen > 0), fmt.Sprintf("pv=%d", sc.PV), fmt.Sprintf("comp=%v", sc.Compress), crc)
 		for _, r := range res {
 			run.Violation(id, r.Key, r.What, brief(sc))
 		}
